@@ -319,6 +319,9 @@ func c18CheckCLI(c c18Case, want []kfLine, firstBad int, mayFail bool) error {
 	if bin == "" {
 		return nil
 	}
+	if b386 := os.Getenv("VERIF_BIN386"); b386 != "" && len(c.Lines)%2 == 1 {
+		bin = b386 // the command as built for a 32-bit platform parses the same files the same way
+	}
 	p := hx.ThePool()
 	dir, _ := os.MkdirTemp(".", "c18-")
 	dir, _ = filepath.Abs(dir)
